@@ -43,6 +43,6 @@ SPEC = Spec(
     ],
     assumptions=[
         "Outcome.rejected/handled are distinguished by whether the base handler ran (observed directly in the harness)",
-        "WithErrorHandler is not modelled; WithDecoder decoders are modelled as further lawful/hostile codecs keyed custom:<id> (the harness registers an xor decoder)",
+        "WithErrorHandler is modelled as a status function on the rejection path (serveE; the harness registers one answering status+18/22/51 in 1 case of 6); WithDecoder decoders are modelled as further lawful/hostile codecs keyed custom:<id> (the harness registers an xor decoder)",
     ],
 )
